@@ -50,7 +50,8 @@ ParamV == IF cx.kind = "body" THEN [v |-> "T", why |-> ""]
 ExtraV == IF (cx.kind = "body" \/ odef.loc # "query") /\ o.q # <<>> THEN "F" ELSE "T"
 MethodV == IF o.m = cx.wantMethod THEN "T" ELSE "F"
 (* Content-Type = the case's media type; for multipart the client appends the boundary parameter, so only the media type is compared *)
-Multipart == cx.media \in {"multipart", "multipart-file"}
+Multipart == cx.media \in {"multipart", "multipart-file", "multipart-raw"}
+BodyOutside == Multipart \/ cx.media \in CtypeOnlyMedia        \* payload encoding outside the fragment: the Content-Type clause alone is judged
 CtypeV == IF (IF Multipart THEN MediaTypeOf(o.ct) = cx.wantCtype ELSE o.ct = cx.wantCtype) THEN "T" ELSE "F"
 
 BodyText == Utf8Decode(o.b)
@@ -59,10 +60,10 @@ FormPairs == LET kv == QParts(o.b)
                  vs == Dec([j \in 1..Len(kv) |-> kv[j].b], "form")
              IN  {[k |-> "obj", keys |-> x, items |-> y] : x \in ks, y \in vs}
 BodyV == CASE cx.media = "none" -> IF o.b = <<>> THEN "T" ELSE "F"
-           [] Multipart -> "U"                       \* the multipart encoding is outside the fragment
-           [] cx.media = "json" -> LET j == JsonParse(BodyText.t)
+           [] BodyOutside -> "U"                       \* the multipart encoding is outside the fragment
+           [] cx.media \in {"json", "json-suffix"} -> LET j == JsonParse(BodyText.t)
                                    IN  IF ~BodyText.bad /\ j.ok /\ SameTyped(j.val, obval) THEN "T" ELSE "F"
-           [] cx.media = "form" -> IF \E j \in 1..Len(obval.items) : obval.items[j].t \in {"bool", "null"} THEN "U"
+           [] cx.media \in {"form", "form-list"} -> IF \E j \in 1..Len(obval.items) : obval.items[j].t \in {"bool", "null"} THEN "U"
                                    ELSE IF In(FormPairs, Expected(obval)) THEN "T" ELSE "F"
            [] OTHER -> IF ~BodyText.bad /\ BodyText.t = Coerce(obval.items[1]) THEN "T" ELSE "F"
 
